@@ -10,6 +10,7 @@ import (
 	"reflect"
 	"strings"
 	"testing"
+	"time"
 
 	"github.com/lugu/qiloop/type/conversion"
 	"github.com/lugu/qiloop/type/encoding"
@@ -22,7 +23,10 @@ import (
 
 const prop = "C20"
 
-func TestMain(m *testing.M) { vt.Main(m) }
+func TestMain(m *testing.M) {
+	vt.Watchdog = 30 * time.Second
+	vt.Main(m)
+}
 
 // Case: a source type and value, a plan that derives the destination type
 // (widening steps for scalar leaves, permutation/case seeds for structs, in
